@@ -3,6 +3,7 @@ import MosnVerif.Lemmas.FrameSteps
 import MosnVerif.Lemmas.Match
 import MosnVerif.Lemmas.FrameH2
 import MosnVerif.Lemmas.ReadLoop
+import MosnVerif.Model.ReadLoopSpec
 /-!
 # C07 — message extraction is independent of how TCP segments the byte stream (property theorems only)
 
@@ -263,6 +264,20 @@ theorem readloop_valid_stream_delivered (dflt : Int) (d : Bytes → Step Bytes) 
 first allocation and by `ReadOnce` (regenerated list of uses) -/
 theorem read_path_vocabulary :
     ReadLoop.mutatingUses MosnVerif.Gen.ReadLoopConn.readBufferUses = ReadLoop.expectedMutatingUses := by decide
+
+/-- the executable predicate `specReadLoop` (evaluated by the driver on the implementation's output of every `rl`
+case) holds of the model: a stream of valid frames plus an incomplete tail, read in any chunks with any stalls -/
+theorem spec_readloop_holds_on_model (dflt : Int) (d : Bytes → Step Bytes) (hs : Stable d) (fs : List Bytes) (t : Bytes)
+    (hv : ∀ f ∈ fs, d f = .frame f f.length) (ht : TailOk d t) (evs : List Ev) (hp : ∀ e ∈ evs, e.plain = true)
+    (hc : (readsOf evs).flatten = fs.flatten ++ t) :
+    let c := toConn (ReadLoop.run (Params.actual dflt) (dispatchConsumer d) ([], false) evs)
+    ReadLoopSpec.specReadLoop (fs.flatten ++ t) (fs.map List.length) ((readsOf evs).map List.length) c.out c.buf c.failed
+      = true := by
+  intro c
+  have hcv : c = { buf := t, out := fs, failed := false } := readloop_valid_stream_delivered dflt d hs fs t hv ht evs hp hc
+  have hsum : ((readsOf evs).map List.length).sum = (fs.flatten ++ t).length := by
+    rw [← hc, List.length_flatten]
+  simp [ReadLoopSpec.specReadLoop, hcv, hsum, specSeg, splitBy_flatten]
 
 -- non-vacuity and the negation witness.  `holdSmall`: a consumer that takes everything once 128 bytes are buffered and
 -- otherwise waits (a frame that is not complete yet).
